@@ -238,14 +238,21 @@ class Concat(Expr):
                 [col for col in get_columns_or_name(frame) if col in columns]
                 for frame in self._frames
             ]
+            if self.axis == 0:
+                # When stacking rows a frame that contributes none of the
+                # selected columns still contributes its rows, as missing
+                # values that decide the dtypes of the result: keep one of
+                # its columns so that the schema is derived from all frames
+                columns_frame = [
+                    cols if cols or frame.ndim < 2 else frame.columns[:1]
+                    for frame, cols in zip(self._frames, columns_frame)
+                ]
             if all(
                 sorted(cols) == sorted(get_columns_or_name(frame))
                 for frame, cols in zip(self._frames, columns_frame)
             ):
                 return
 
-            # When stacking rows (axis=0) a frame that contributes none of the
-            # selected columns still contributes its rows
             frames = [
                 (
                     frame[cols]
